@@ -133,6 +133,10 @@ func runXW(kv map[string]string, ops []string, o *Out, line string) *xwRun {
 		return r
 	}
 	for _, op := range ops {
+		if kv["zero"] == "1" {
+			// the exported statistics are documented as safe to set to any value
+			xw.InputOffset, xw.OutputOffset = 0, 0
+		}
 		f := strings.SplitN(op, ":", 2)
 		cur := r.sinks[len(r.sinks)-1]
 		before := len(cur.got)
@@ -316,6 +320,25 @@ func execXW(o *Out, id, line string) {
 				}
 			} else {
 				ops2 = append(ops2, op)
+			}
+		}
+		// the exported InputOffset/OutputOffset fields may be set by the caller at any time:
+		// resetting them after every call must not change what is written or what a flush makes durable
+		kvz := map[string]string{}
+		for k, v := range kv {
+			kvz[k] = v
+		}
+		kvz["zero"] = "1"
+		rz := runXW(kvz, ops, &Out{Stats: map[string]int{}, distinct: map[string]bool{}}, line)
+		if !rz.closeOK || !bytes.Equal(rz.sinks[0].got, out) {
+			o.Violate("C06", "emitted bytes change when the caller resets the exported offset statistics between calls", "stats-dependent", line)
+		}
+		for i, n := range rz.flushOK {
+			if n <= len(rz.sinks[0].got) {
+				if got, _, _ := inflateAll(rz.sinks[0].got[:n]); !bytes.Equal(got, data[:min(rz.flushIn[i], len(data))]) {
+					o.Violate("C12", fmt.Sprintf("with the statistics reset between calls, after Flush #%d returned nil the sink bytes decode to %d bytes, %d were written before the flush", i, len(got), rz.flushIn[i]), "flush-not-durable-stats", line)
+					break
+				}
 			}
 		}
 		r2 := runXW(kv, ops2, &Out{Stats: map[string]int{}, distinct: map[string]bool{}}, line)
